@@ -29,6 +29,12 @@ let table : (string * (v list -> v)) list = [
   ("c04_lookup", (fun a -> match a with [user; basis] ->
       L (Stdlib.List.map (fun l -> of_umat (Unitaries.lookup fops (to_user user) l)) (to_basis basis))
       | _ -> failwith "args"));
+  (* dictionary resolution: arg / state given as [] (absent) or [user-table]; returns the matrices of the letters *)
+  ("c04_lookup_resolved", (fun a -> match a with [arg; state; basis] ->
+      let opt x = match to_list x with [] -> None | [u] -> Some (to_user u) | _ -> failwith "option" in
+      let d = KronIndex.resolve_dict (opt arg) (opt state) in
+      L (Stdlib.List.map (fun l -> of_umat (Unitaries.lookup fops d l)) (to_basis basis))
+      | _ -> failwith "args"));
   (* the three renderings of _kron_mult on a vector *)
   ("c04_kron3", (fun a -> match a with [user; basis; x] ->
       let us = Stdlib.List.map (Unitaries.lookup fops (to_user user)) (to_basis basis) in
